@@ -30,9 +30,14 @@ pub struct Scn {
 
 pub fn gen(rng: &mut Rng) -> Scn {
     let n = rng.range(10, 100) as u32;
-    let (min_ms, max_ms) = *rng.pick(&[(0u64, 0u64), (0, 5), (1, 3), (5, 5), (3, 1), (10, 20), (0, 50)]);
+    let (min_ms, max_ms) = *rng.pick(&[(0u64, 0u64), (0, 5), (1, 3), (5, 5), (3, 1), (10, 20), (0, 50), (999, 1001), (1500, 1500), (1200, 2500)]);
+    let seed = match rng.below(8) {
+        0 => 0,
+        1 => *rng.pick(&[1u64, u64::MAX, u64::MAX - 1, 1 << 63, (1 << 32) - 1, 1 << 32]),
+        _ => rng.next_u64() % 1_000_000,
+    };
     Scn {
-        seed: rng.next_u64() % 1_000_000,
+        seed,
         error_tenths: *rng.pick(&[0u32, 3, 3, 10]),
         latency_tenths: *rng.pick(&[0u32, 5, 5, 10]),
         min_ms,
@@ -47,8 +52,8 @@ pub fn gen(rng: &mut Rng) -> Scn {
 pub fn valid(s: &Scn) -> bool {
     s.error_tenths <= 10
         && s.latency_tenths <= 10
-        && s.min_ms <= 100
-        && s.max_ms <= 100
+        && s.min_ms <= 5000
+        && s.max_ms <= 5000
         && s.n >= 1
         && s.n <= 120
         && s.b_starts.len() == s.n as usize
@@ -61,7 +66,7 @@ const INJECTED_KIND: u8 = 77;
 
 pub fn run(s: &Scn, ctx: &mut RunCtx) -> RunOutput {
     world::reset();
-    let cfg = s.knobs.cfg(ctx, 60_000, 0);
+    let cfg = s.knobs.cfg(ctx, 60_000 + s.n as u64 * s.min_ms.max(s.max_ms), 0);
     let scn = s.clone();
     let n = s.n as usize;
     let setup = move || {
@@ -251,6 +256,9 @@ pub struct C19;
 impl Prop for C19 {
     fn id(&self) -> &'static str {
         "C19"
+    }
+    fn nondeterminism_is_the_violation(&self) -> bool {
+        true
     }
     fn gen(&self, rng: &mut Rng, _t: Tier) -> Value {
         serde_json::to_value(gen(rng)).unwrap()
